@@ -112,6 +112,13 @@ def main(tier, replay):
                     ofails.append(parse_line(l))
                 elif len(samples) < 6 and (nruns % 9973 == 1):
                     samples.append(l.rstrip("\n")[:300])
+        # the driver ends its output with a "T" line: anything else means the enumeration was cut short
+        if not replay:
+            with open(outf, "rb") as fh:
+                fh.seek(max(0, os.path.getsize(outf) - 400))
+                tail = fh.read().decode(errors="replace")
+            if "\nT\truns=" not in tail:
+                v.violation({"kind": "harness", "correspondence": "SendReq driver", "error": "driver output incomplete (no terminating T line): " + tail[-200:]}, has_input=False)
         # ---- classify oracle failures
         bound_only, other = [], []
         for c in ofails:
